@@ -31,7 +31,7 @@ func zzSetFaults(s *zzSink, tag string, t int, on bool) {
 // request} from the real constructor, with (FAULTS=1) or without storage faults.
 func ZZ_AUX_bmc() {
 	fps, minS, maxS, prevS, T, K := zzParam("fps"), zzParam("minS"), zzParam("maxS"), zzParam("prevS"), zzParam("T"), zzParam("K")
-	CR, FAULTS := zzParam("CR") == 1, zzParam("FAULTS") == 1
+	CR, FAULTS, BAD := zzParam("CR") == 1, zzParam("FAULTS") == 1, zzParam("BAD") == 1
 	maxF := maxS * fps
 	h := &zzMP{}
 	msink, csink, ssink := &zzSink{last: -1}, &zzSink{last: -1}, &zzSink{last: -1}
@@ -59,7 +59,7 @@ func ZZ_AUX_bmc() {
 	for t := 0; t < K; t++ {
 		ev := zzInt("ev", t)
 		zzAssume(0 <= ev && ev < 4)
-		if !FAULTS {
+		if !FAULTS && !BAD {
 			zzAssume(ev != 1) // C17 quantifies over streams of valid frames
 		}
 		m, w := zzBool("m", t), zzBool("w", t)
@@ -94,11 +94,11 @@ func ZZ_AUX_bmc() {
 			if !FAULTS {
 				// ---- C17
 				if CR {
-					zzAssert(csink.writes == 1 && csink.last == n && !csink.orderViol, "bmc C17: every frame lands in the continuous recording exactly once, in order")
+					zzAssert(csink.writes == 1 && csink.last == n && !csink.orderViol, "bmc C13/C17: every valid frame lands in the continuous recording exactly once, in order (also right after a bad frame)")
 					if cOpen {
 						zzAssert(csink.starts == 0, "bmc C17: no new continuous file while one is open")
 					} else {
-						zzAssert(csink.startOKs == 1, "bmc C17: a new continuous file starts with the frame after the previous file's last")
+						zzAssert(csink.startOKs == 1, "bmc C13/C17: a new continuous file is properly started when none is open")
 					}
 					if csink.stops == 1 {
 						zzAssert(csink.sinceStart == maxF+1 && !csink.open, "bmc C17: continuous files hold max-secs*fps+1 frames")
